@@ -7,13 +7,14 @@
    Demuxer, the pool and parseData), and the two ghost logs of Model/Demux.v.  The Demuxer's own fields (data buffer,
    packet buffer, pool, size option) stay fields.
 
-   Errors.  The model's results carry a code (the E_ constants of Base/Iter.v); the generated code handles Go error VALUES (gerr).
-   code_x reads a code off an error value the way the harness does (errors.Is against the sentinels, the injected
-   failure = any error made outside the translated code), except that "no more packets" is recognised only as the
-   sentinel itself: that is what the callers compare with (==).  The operations instantiated by the model return
-   [err_of c] for the model's code c, where err_of is ANY function with err_of_nomore / err_of_code below: the
-   equalities hold for every such representation of errors, not for one chosen here.  Codes the harness cannot tell
-   apart from the generic one are identified with it on the model side (norm). *)
+   Errors.  The model's results carry a code (the E_ constants of Base/Iter.v); the generated code handles Go error
+   VALUES (gerr).  code_x reads a code off an error value the way the harness does (errors.Is against the sentinels;
+   the injected failure = any error made outside the translated code, EExt, anywhere in the chain).  Where a caller
+   compares with == ErrNoMorePackets the relation is exact (res_rel_exact): the value is that sentinel itself exactly
+   when the model's code is E_nomore.  The operations instantiated by the model return [err_of c] for the model's code
+   c, where err_of is ANY function with the stated properties (err_of_plain is one): the equalities hold for every
+   such representation of errors, not for one chosen here.  Codes the harness cannot tell apart from the generic one
+   are identified with it on the model side (norm). *)
 From Coq Require Import ZArith List Lia Bool String ZifyBool.
 Require Import Base.Bits Base.Iter Gen.Consts Gen.Types Gen.Preds Gen.DemuxGen
   Model.Packet Model.Pool Model.Reader Model.Demux.
